@@ -177,7 +177,14 @@ func c18GlobInstance(g string, miss bool) string {
 }
 
 func c18NearMiss(r *hx.Rand, u string) string {
-	switch r.Intn(7) {
+	switch r.Intn(9) {
+	case 7, 8:
+		// the registered URI read as a PATTERN would accept this one: a glob metacharacter of the exact
+		// registration (typically the `?` of its query) replaced by an ordinary character
+		if i := strings.IndexAny(u, "?*["); i >= 0 {
+			return u[:i] + hx.Pick(r, "X", "@", "-") + u[i+1:]
+		}
+		return u + "x"
 	case 0:
 		return u + "/"
 	case 1:
